@@ -643,9 +643,10 @@ type wrote struct {
 
 type volPlan struct {
 	Name       string
-	Target     int64 // exact .dat size wanted (0: whatever results)
-	Approx     int64 // approximate size when Target == 0
-	TrailDel   bool  // end the .dat with a deletion record
+	Target     int64  // exact .dat size wanted (0: whatever results)
+	Approx     int64  // approximate size when Target == 0
+	TrailDel   bool   // end the .dat with a deletion record
+	End        string // kind of the last record when TrailDel is false: "" normal new needle, "empty" zero-length blob, "overwrite" new version of an existing key
 	BigNeedles bool
 }
 
@@ -809,8 +810,17 @@ func runVolume(r *lib.Run, rng *rand.Rand, idxv int, plan volPlan) {
 	if plan.Target != 0 {
 		// the last needle lands exactly on Target (minus the 32-byte deletion record if one is to follow)
 		want := plan.Target
-		if plan.TrailDel {
-			want -= needle.GetActualSize(0, needle.Version3)
+		if plan.TrailDel || plan.End == "empty" {
+			want -= needle.GetActualSize(0, needle.Version3) // the 32-byte record that follows
+		}
+		lastKey, lastCookie := key, rng.Uint32()
+		if plan.End == "overwrite" {
+			for _, k := range order {
+				if w := model[k]; !w.Deleted && w.Len > 0 {
+					lastKey, lastCookie = k, w.Cookie
+					break
+				}
+			}
 		}
 		gap := want - datSize()
 		c := needleOverhead("last", "")
@@ -825,9 +835,29 @@ func runVolume(r *lib.Run, rng *rand.Rand, idxv int, plan volPlan) {
 			s.Close()
 			return
 		}
-		put(key, rng.Uint32(), int(d), "last", "")
+		put(lastKey, lastCookie, int(d), "last", "")
+		if lastKey == key {
+			key++
+		}
+	} else if plan.End == "overwrite" {
+		for _, k := range order {
+			if w := model[k]; !w.Deleted && w.Len > 0 {
+				put(k, w.Cookie, 1+rng.Intn(5000), "again", "")
+				break
+			}
+		}
+	}
+	if plan.End == "empty" && !plan.TrailDel {
+		put(key, rng.Uint32(), 0, "", "") // a live zero-length blob is the last record
 		key++
 	}
+	endKind := "normal"
+	if plan.TrailDel {
+		endKind = "tombstone"
+	} else if plan.End != "" {
+		endKind = plan.End
+	}
+	r.Count("B_volumes_ending_in_"+endKind, 1)
 	if plan.TrailDel {
 		// delete a live, non-empty key: the .dat then ends with a deletion record
 		for _, k := range order {
@@ -1069,22 +1099,23 @@ func runVolume(r *lib.Run, rng *rand.Rand, idxv int, plan volPlan) {
 func runPartB(r *lib.Run) {
 	rng := r.SubRng("c06-B")
 	plans := []volPlan{
-		{Name: "small", Approx: 1*MiB + int64(rng.Intn(2*MiB)), BigNeedles: false},
-		{Name: "exact-10MiB", Target: 10 * MiB, BigNeedles: true},
+		{Name: "small-ending-in-empty-blob", Approx: 1*MiB + int64(rng.Intn(2*MiB)), BigNeedles: false, End: "empty"},
+		{Name: "exact-10MiB-ending-in-overwrite", Target: 10 * MiB, BigNeedles: true, End: "overwrite"},
 		{Name: "over-10MiB-trailing-delete", Target: 10*MiB + 32 + 8*int64(rng.Intn(4)), TrailDel: true, BigNeedles: true},
+		{Name: "small-ending-in-new-needle", Target: 1*MiB + MiB/2 + 8*int64(rng.Intn(1000)), BigNeedles: false},
 	}
 	if r.Thorough() {
 		plans = append(plans,
-			volPlan{Name: "exact-20MiB", Target: 20 * MiB, BigNeedles: true},
+			volPlan{Name: "exact-20MiB-ending-in-empty-blob", Target: 20 * MiB, BigNeedles: true, End: "empty"},
 			volPlan{Name: "under-10MiB", Target: 10*MiB - 8, BigNeedles: true},
-			volPlan{Name: "over-10MiB", Target: 10*MiB + 8, BigNeedles: true},
+			volPlan{Name: "over-10MiB-ending-in-empty-blob", Target: 10*MiB + 8, BigNeedles: true, End: "empty"},
 			volPlan{Name: "under-20MiB", Target: 20*MiB - 8*int64(1+rng.Intn(8)), BigNeedles: true},
 			volPlan{Name: "over-20MiB", Target: 20*MiB + 8*int64(1+rng.Intn(8)), BigNeedles: false},
 			volPlan{Name: "exact-10MiB-trailing-delete", Target: 10 * MiB, TrailDel: true, BigNeedles: true},
 			volPlan{Name: "one-block", Target: 1 * MiB * 3, BigNeedles: false},
 		)
 		for len(plans) < 20 {
-			plans = append(plans, volPlan{Name: fmt.Sprintf("random-%d", len(plans)), Approx: 1*MiB + rng.Int63n(24*MiB), BigNeedles: rng.Intn(2) == 0, TrailDel: rng.Intn(4) == 0})
+			plans = append(plans, volPlan{Name: fmt.Sprintf("random-%d", len(plans)), Approx: 1*MiB + rng.Int63n(24*MiB), BigNeedles: rng.Intn(2) == 0, TrailDel: rng.Intn(4) == 0, End: []string{"", "empty", "overwrite"}[rng.Intn(3)]})
 		}
 	}
 	for i, p := range plans {
